@@ -8,6 +8,10 @@ mod verif_c13_cc {
 
     //@include ../_shared/kani_stubs.rs
 
+    /// `Rtt::try_backoff_rtt` contains a `tracing::trace!` call site (crashes the Kani compiler, like qevent::event!)
+    /// and f32 arithmetic; it only touches the RTT estimate before the first sample. Stubbed out (recorded).
+    fn noop_backoff(_rtt: &ArcRtt) {}
+
     struct NoFeedback;
     impl Feedback for NoFeedback {
         fn may_loss(&self, _trigger: PacketLostTrigger, _pns: &mut dyn Iterator<Item = u64>) {}
@@ -83,6 +87,7 @@ mod verif_c13_cc {
     #[kani::proof]
     #[kani::stub(tokio::time::Instant::now, any_instant)]
     #[kani::stub(qevent::telemetry::macro_support::build_and_emit_event, noop_emit)]
+    #[kani::stub(crate::rtt::ArcRtt::try_backoff_rtt, noop_backoff)]
     fn pto_timeout_contract() {
         let (mut cc, hs) = fresh_cc(any_max_ack_delay());
         let c: u32 = kani::any();
@@ -110,6 +115,7 @@ mod verif_c13_cc {
     #[kani::proof]
     #[kani::stub(tokio::time::Instant::now, any_instant)]
     #[kani::stub(qevent::telemetry::macro_support::build_and_emit_event, noop_emit)]
+    #[kani::stub(crate::rtt::ArcRtt::try_backoff_rtt, noop_backoff)]
     fn do_tick_contract() {
         let (mut cc, _) = fresh_cc(any_max_ack_delay());
         let c: u32 = kani::any();
